@@ -4,3 +4,5 @@ open Cherab.Props.C15Table
 #print axioms table_broadcast_wf
 #print axioms table_special_wf
 #print axioms classes_accept_slices
+#print axioms generated_rejected_unchanged
+#print axioms generated_scene_inv
